@@ -2,6 +2,7 @@ import PW.Proofs.MixedRadix
 import PW.Proofs.SpecLemmas
 import PW.OpModel
 import PW.Props.Tables
+import PW.Proofs.NumQuanta
 /-!
 # C10 — Fock-space truncation never silently loses state
 
@@ -47,18 +48,32 @@ theorem beam_splitter_cutoff (q₁ q₂ : Nat) (old : List Nat) :
     OpModel.dimsFor .beamSplitter [q₁, q₂] [q₁ + 1, q₂ + 1] old = [q₁ + q₂ + 1, q₁ + q₂ + 1] := by
   simp [OpModel.dimsFor]
 
-/-- the shrink decision (model): allowed iff the highest occupied level fits into the new dimension -/
-def shrinkAllowed (highestOccupied newDim : Nat) : Bool := decide (highestOccupied < newDim)
+/-- the shrink decision (model `PW.Decide.shrinkAllowed`): allowed iff the highest occupied level fits into the new dimension -/
+abbrev shrinkAllowed := PW.Decide.shrinkAllowed
 
 /-- an allowed shrink cuts only levels above the highest occupied one -/
 theorem allowed_shrink_keeps_every_occupied_level (q d k : Nat) (h : shrinkAllowed q d = true) (hk : k ≤ q) : k < d := by
-  simp only [shrinkAllowed, decide_eq_true_eq] at h
+  simp only [shrinkAllowed, PW.Decide.shrinkAllowed, decide_eq_true_eq] at h
   omega
 
 /-- a request for exactly the highest occupied level (or less) is refused -/
 theorem shrink_to_occupied_level_refused (q d : Nat) (h : d ≤ q) : shrinkAllowed q d = false := by
-  simp only [shrinkAllowed, decide_eq_false_iff_not]
+  simp only [shrinkAllowed, PW.Decide.shrinkAllowed, decide_eq_false_iff_not]
   omega
+
+/-- **the level estimate is exact**: `num_quanta_vector` returns an index whose amplitude is not zero and
+above which every amplitude is exactly zero (model `PW.Decide.numQuantaVector`, compared with the
+library function on crafted vectors and matrices) -/
+theorem level_estimate_is_highest_occupied {α : Type} (nz : α → Bool) (v : List α) (q : Nat)
+    (h : PW.Decide.numQuantaVector nz v = some q) :
+    (∃ x, v[q]? = some x ∧ nz x = true) ∧ ∀ i x, q < i → v[i]? = some x → nz x = false :=
+  PW.Decide.numQuantaVector_spec nz v q h
+
+/-- hence a shrink that the rule allows cuts only amplitudes that are exactly zero (`resize_lossless` applies) -/
+theorem allowed_shrink_cuts_only_zeros {α : Type} (nz : α → Bool) (v : List α) (q d : Nat)
+    (hq : PW.Decide.numQuantaVector nz v = some q) (hd : shrinkAllowed q d = true) :
+    ∀ i x, d ≤ i → v[i]? = some x → nz x = false :=
+  PW.Decide.allowed_shrink_cuts_only_zeros nz v q d hq hd
 
 /-- every shrink decision in the source (regenerated on every run) is this rule -/
 theorem source_shrink_decisions : PW.Generated.resizeGuards.all PW.TablesSpec.shrinkRuleOk = true :=
@@ -75,3 +90,5 @@ end PW.Props.C10
 #print axioms PW.Props.C10.allowed_shrink_keeps_every_occupied_level
 #print axioms PW.Props.C10.shrink_to_occupied_level_refused
 #print axioms PW.Props.C10.source_shrink_decisions
+#print axioms PW.Props.C10.level_estimate_is_highest_occupied
+#print axioms PW.Props.C10.allowed_shrink_cuts_only_zeros
